@@ -90,7 +90,7 @@ func run(c *core.Ctx) {
 			return
 		}
 		nBeh = len(raws)
-		muts := 3
+		muts := 2
 		extra := 0
 		maxMembers := 4
 		if c.Thorough() {
